@@ -49,6 +49,8 @@ def _fmt(a) -> str:
                 return f"{_fmt(a[1])}({', '.join(args)})"
             if tag == "obj":
                 return f"<{a[1]}@{a[2]}>"
+            if tag == "parity":
+                return f"S({_fmt(a[1])})"
             if tag == "str":
                 return repr(a[1])
             if tag == "const":
@@ -388,15 +390,27 @@ class P:
 
 
 def _apply_sqrt(p):
-    """sqrt(x)**2 -> x inside a polynomial dict."""
+    """sqrt(x)**2 -> x and parity(m)**2 -> 1 inside a polynomial dict."""
     need = False
+    par = False
     for m in p:
         for a, e in m:
-            if e >= 2 and isinstance(a, tuple) and a and a[0] == "call" and _is_sqrt(a):
-                need = True
-                break
-        if need:
-            break
+            if e >= 2 and isinstance(a, tuple) and a:
+                if a[0] == "call" and _is_sqrt(a):
+                    need = True
+                elif a[0] == "parity":
+                    par = True
+    if par:
+        q: dict = {}
+        for m, c in p.items():
+            mm = tuple((a, (e % 2 if isinstance(a, tuple) and a and a[0] == "parity" else e)) for a, e in m)
+            mm = tuple(t for t in mm if t[1])
+            v = q.get(mm, 0) + c
+            if v:
+                q[mm] = v
+            else:
+                q.pop(mm, None)
+        p = q
     if not need:
         return p
     out: dict = {}
@@ -517,3 +531,55 @@ def _poly_str(p):
             parts.append(f"{c}*{ms}")
     s = " + ".join(parts)
     return s.replace("+ -", "- ")
+
+
+def _faulhaber(k: int, n: "P") -> "P":
+    """sum_{i=0}^{n-1} i**k as a polynomial in n."""
+    if k == 0:
+        return n
+    if k == 1:
+        return n * (n - 1) / 2
+    if k == 2:
+        return (n - 1) * n * (2 * n - 1) / 6
+    if k == 3:
+        t = n * (n - 1) / 2
+        return t * t
+    if k == 4:
+        return (n - 1) * n * (2 * n - 1) * (3 * n * n - 3 * n - 1) / 30
+    raise ValueError("degree too high for closed-form summation")
+
+
+def sum_range(d: "P", var, lo: "P", hi: "P"):
+    """sum_{var=lo}^{hi-1} d  for d polynomial in the atom ``var`` (degree <= 4); None if not possible."""
+    if not d.is_poly():
+        return None
+    coeffs: dict = {}
+    for m, c in d.n.items():
+        k = 0
+        rest = []
+        for a, e in m:
+            if a == var:
+                k = e
+            else:
+                if isinstance(a, tuple) and _mentions(a, var):
+                    return None
+                rest.append((a, e))
+        term = P({tuple(rest): c})
+        coeffs[k] = coeffs.get(k, P.const(0)) + term
+    total = P.const(0)
+    try:
+        for k, c in coeffs.items():
+            total = total + c * (_faulhaber(k, hi) - _faulhaber(k, lo))
+    except ValueError:
+        return None
+    return total
+
+
+def _mentions(x, var) -> bool:
+    if x == var:
+        return True
+    if isinstance(x, P):
+        return any(_mentions(a, var) for a in x.atoms())
+    if isinstance(x, tuple):
+        return any(_mentions(y, var) for y in x if isinstance(y, (tuple, P)))
+    return False
